@@ -1,6 +1,7 @@
 package exif2
 
 import (
+	"io"
 	"sync"
 
 	"github.com/rs/zerolog"
@@ -125,10 +126,31 @@ func (ir *ifdReader) discard(n int) (err error) {
 		n = int(ir.exifLength) - int(ir.po)
 	}
 	if br, ok := ir.reader.(BufferedReader); ok {
+		if ir.atEOF && n > ir.tail {
+			// the stream has ended: skip what is left, as Discard would, without another read
+			n, _ = br.Discard(ir.tail)
+			ir.po += uint32(n)
+			ir.tail -= n
+			return io.EOF
+		}
 		n, err = br.Discard(n)
 		ir.po += uint32(n)
+		if ir.atEOF {
+			ir.tail -= n
+		}
+		if err == io.EOF {
+			ir.atEOF, ir.tail = true, 0
+		}
 		return err
 	}
+	if ir.atEOF && n > 0 {
+		return io.EOF
+	}
+	defer func() {
+		if err == io.EOF {
+			ir.atEOF, ir.tail = true, 0
+		}
+	}()
 	var discarded int
 	for n > 0 && err == nil {
 		if bufferLength > n {
